@@ -331,13 +331,18 @@ def worker(jobfile, outfile):
         if job['mode'] == 'keys':
             func, _ = make_func(group['sig'])
             f = klepto.keygen(*ignore_tuple(group['ign']), keymap=make_keymap(klepto, km, **(variant or {})))(func)
-            for c in group['calls']:
+            order = list(range(len(group['calls'])))
+            if job.get('reverse'):
+                order.reverse()          # this session makes the same calls in the opposite order
+            res['khex'] = [None] * len(order)
+            for ci in order:
+                c = group['calls'][ci]
                 args = [val(v) for v in c['p']]
                 kwargs = {it['n']: val(it['v']) for it in c['k']}
                 try:
-                    res['khex'].append(key_hex(f(*args, **kwargs)))
+                    res['khex'][ci] = key_hex(f(*args, **kwargs))
                 except Exception as ex:
-                    res['khex'].append('exc:' + type(ex).__name__)
+                    res['khex'][ci] = 'exc:' + type(ex).__name__
         else:   # 'write' / 'read': a decorated function on a persistent archive
             func, _ = make_func(group['sig'], strret=True)   # (the sqlite fallback stores scalars only)
             A = klepto.archives
